@@ -80,7 +80,6 @@ def run(ctx: core.Ctx) -> int:
         "identifier classes: cur/dep/exc from the bundled SPDX JSON files; ref = 'LicenseRef-' + SPDX idstring; "
         "unk = everything else (wrong case, unknown names, malformed LicenseRef-)",
         "two LICENSES/ files resolving to one identifier are outside the domain (the tool refuses them)",
-        "lenient cell: a used LicenseRef- that no file provides must be missing and may also be listed as bad",
     ]
     mc = ctx.mc("Inventory", "MC_C06.cfg")
     mc_viol = [{"clause": f"model:{v}", "kf": "", "detail": mc["out"][-2500:]} for v in mc["violated"]]
